@@ -149,21 +149,21 @@ func execAddr(c Case) string {
 		d, err := bchutil.DecodeAddress(string(unhx(a[1])), netIdx(a[0]))
 		return decObs(d, err)
 	case "pm":
-		return u64s(bchutil.VerifPolyMod(unhx(a[0])))
+		return u64s(hk_bchutil_PolyMod(unhx(a[0])))
 	case "cb":
-		b, err := bchutil.VerifConvertBits(unhx(a[3]), uint(atoi(a[0])), uint(atoi(a[1])), a[2] == "1")
+		b, err := hk_bchutil_ConvertBits(unhx(a[3]), uint(atoi(a[0])), uint(atoi(a[1])), a[2] == "1")
 		if err != nil {
 			return "err"
 		}
 		return "ok:" + hx(b)
 	case "pack":
-		b, err := bchutil.VerifPackAddressData(bchutil.AddressType(atoi(a[0])), unhx(a[1]))
+		b, err := hk_bchutil_PackAddressData(bchutil.AddressType(atoi(a[0])), unhx(a[1]))
 		if err != nil {
 			return "err"
 		}
 		return "ok:" + hx(b)
 	case "cenc": // cenc <type> <prefix> <hash>
-		return hs(bchutil.VerifCheckEncodeCashAddress(unhx(a[2]), string(unhx(a[1])), bchutil.AddressType(atoi(a[0]))))
+		return hs(hk_bchutil_CheckEncodeCashAddress(unhx(a[2]), string(unhx(a[1])), bchutil.AddressType(atoi(a[0]))))
 	case "cdec", "csub": // cdec <string> ; csub <valid> <mutated>  (observation is the decode of the last arg)
 		p, d, err := bchutil.DecodeCashAddress(string(unhx(a[len(a)-1])))
 		if err == bchutil.ErrChecksumMismatch {
@@ -173,7 +173,7 @@ func execAddr(c Case) string {
 		}
 		return "ok," + hs(p) + "," + hx(d)
 	case "ccdec":
-		d, p, t, err := bchutil.VerifCheckDecodeCashAddress(string(unhx(a[0])))
+		d, p, t, err := hk_bchutil_CheckDecodeCashAddress(string(unhx(a[0])))
 		if err == bchutil.ErrChecksumMismatch {
 			return "err,checksum," + hs(p)
 		} else if err == bchutil.ErrUnknownAddressType {
